@@ -31,7 +31,12 @@ def install(job):
         from pathlib import Path
         from ldar_sim_run import run_ldar_sim
 
-        run_ldar_sim([Path(f) for f in prior], DEBUG=True)
+        try:
+            run_ldar_sim([Path(f) for f in prior], DEBUG=True)
+        except (Exception, SystemExit) as e:
+            # the prior run only has to have simulated; a stop in its summary step (recorded C14 finding for
+            # simulations without emissions) must not prevent the main run
+            print("c05 prior run stopped:", repr(e))
     from virtual_world.emission_types import emission as emission_mod
 
     DRAWS = []
